@@ -123,6 +123,27 @@ func TestC11(t *testing.T) {
 			}
 			c.Label("messages_share_one_array")
 		}
+		// in a quarter of the scripts producers submit some of their message OBJECTS again later (a
+		// keep-alive or barrier request a caller builds once and sends periodically): every submission
+		// is one more message on the wire
+		want := np * per
+		if gen.Pick(rt, "resubmit", 4) == 0 {
+			for p := range msgs {
+				k := rapid.IntRange(0, 3).Draw(rt, "resubmissions")
+				for ; k > 0 && want < 1600; k-- {
+					src := rapid.IntRange(0, len(msgs[p])-1).Draw(rt, "resubmit_which")
+					at := rapid.IntRange(src+1, len(msgs[p])).Draw(rt, "resubmit_at")
+					om := msgs[p][src]
+					msgs[p] = append(msgs[p][:at], append([]outMsg{om}, msgs[p][at:]...)...)
+					total += len(om.enc)
+					want++
+				}
+				for i := range msgs[p] {
+					msgs[p][i].seq = i
+				}
+			}
+			c.Label("message_objects_submitted_again")
+		}
 		conn := newScriptConn(nil, nil)
 		if slowPeer > 0 {
 			conn.wdelay = func(i int) {
@@ -159,7 +180,6 @@ func TestC11(t *testing.T) {
 		close(start)
 		prodDone := make(chan struct{})
 		go func() { wg.Wait(); close(prodDone) }()
-		want := np * per
 		deadline := time.Now().Add(lossWait)
 		timedOut := false
 		for {
